@@ -365,6 +365,25 @@ pub fn zoom_spec(small: bool) -> BoxedStrategy<ZoomSpec> {
     prop_oneof![
         3 => (select(vec![1u32, 2, 7, 10, 160]), 0u32..=10).prop_map(|(initial, max)| ZoomSpec::Auto { initial, max }),
         3 => proptest::sample::subsequence(manual_sizes.clone(), 0..=6).prop_map(ZoomSpec::Manual),
+        // the list is a public option and nothing says it must be ascending, distinct or non-zero
+        1 => (proptest::sample::subsequence(manual_sizes.clone(), 1..=5), any::<u64>(), prop::bool::weighted(0.3), prop::bool::weighted(0.2))
+            .prop_map(|(mut v, seed, dup, zero)| {
+                if dup {
+                    v.push(v[(seed % v.len() as u64) as usize]);
+                }
+                if zero {
+                    v.push(0);
+                }
+                // seeded Fisher-Yates
+                let mut x = seed | 1;
+                for i in (1..v.len()).rev() {
+                    x ^= x << 13;
+                    x ^= x >> 7;
+                    x ^= x << 17;
+                    v.swap(i, (x % (i as u64 + 1)) as usize);
+                }
+                ZoomSpec::Manual(v)
+            }),
     ]
     .boxed()
 }
@@ -459,7 +478,9 @@ pub fn tame_zooms(bases: u64, items: u64, o: &mut Opts, budget: u64) {
                 if cost(&levels, ips) <= budget || v.is_empty() {
                     break;
                 }
-                v.remove(0);
+                // drop the finest level (the list need not be ascending)
+                let k = (0..v.len()).min_by_key(|i| v[*i]).unwrap();
+                v.remove(k);
             }
         }
     }
